@@ -1080,7 +1080,17 @@ impl Sim {
                 }
                 let waiting_on_futex =
                     g.pools[a].workers.iter().filter(|w| w.futex.is_some()).count() + g.driver_futex.is_some() as usize;
+                // Order matters: first look for threads the simulator does not know, then look again
+                // whether anybody became runnable. A thread that is gone by the time of the first look
+                // has delivered all its wake-ups before, so the second look sees them.
                 let unknown_threads = thread_ids().iter().any(|t| *t == u64::MAX || !g.known_tids.contains(t));
+                {
+                    let mut again = g.runnable_set();
+                    g.filter_stalled(&mut again);
+                    if !again.is_empty() {
+                        continue;
+                    }
+                }
                 let limit_ms = g.cfg.watchdog_s.saturating_mul(1000);
                 drop(g);
                 if waiting_on_futex == 0 {
@@ -1769,8 +1779,53 @@ struct FWaiter {
     addr: usize,
     flag: Arc<AtomicU8>,
 }
-static FUTEX_REG: Mutex<Vec<FWaiter>> = Mutex::new(Vec::new());
-static FUTEX_REG_LEN: std::sync::atomic::AtomicUsize = std::sync::atomic::AtomicUsize::new(0);
+/// The waiters parked in the simulator. A wait's "value still as expected? then enqueue" and a
+/// wake's scan are critical sections of ONE lock, as in the kernel: a wake that skipped the lock
+/// when the list looked empty lost wake-ups against threads outside the simulation (store
+/// buffering: the waker's value store and the waiter's enqueue passed each other). The lock is a
+/// spin lock so that taking it never makes a futex call itself.
+struct FutexReg {
+    locked: AtomicBool,
+    waiters: std::cell::UnsafeCell<Vec<FWaiter>>,
+}
+unsafe impl Sync for FutexReg {}
+struct FutexRegGuard<'a>(&'a FutexReg);
+impl FutexReg {
+    fn lock(&self) -> FutexRegGuard<'_> {
+        let mut spins = 0u32;
+        while self.locked.compare_exchange_weak(false, true, Ordering::SeqCst, Ordering::SeqCst).is_err() {
+            spins += 1;
+            if spins % 64 == 0 {
+                unsafe {
+                    crate::sys::raw6(libc::SYS_sched_yield, 0, 0, 0, 0, 0, 0);
+                }
+            } else {
+                std::hint::spin_loop();
+            }
+        }
+        FutexRegGuard(self)
+    }
+}
+impl<'a> std::ops::Deref for FutexRegGuard<'a> {
+    type Target = Vec<FWaiter>;
+    fn deref(&self) -> &Vec<FWaiter> {
+        unsafe { &*self.0.waiters.get() }
+    }
+}
+impl<'a> std::ops::DerefMut for FutexRegGuard<'a> {
+    fn deref_mut(&mut self) -> &mut Vec<FWaiter> {
+        unsafe { &mut *self.0.waiters.get() }
+    }
+}
+impl<'a> Drop for FutexRegGuard<'a> {
+    fn drop(&mut self) {
+        self.0.locked.store(false, Ordering::SeqCst);
+    }
+}
+static FUTEX_REG: FutexReg = FutexReg {
+    locked: AtomicBool::new(false),
+    waiters: std::cell::UnsafeCell::new(Vec::new()),
+};
 static FUTEX_WAKES: AtomicU64 = AtomicU64::new(0);
 
 pub(crate) enum FutexWait {
@@ -1809,12 +1864,11 @@ pub(crate) unsafe fn futex_wait_emulated(addr: usize, expected: u32, timeout_ns:
     }
     let flag = Arc::new(AtomicU8::new(FUTEX_WAITING));
     {
-        let mut r = FUTEX_REG.lock().unwrap_or_else(|e| e.into_inner());
+        let mut r = FUTEX_REG.lock();
         if (*(addr as *const std::sync::atomic::AtomicU32)).load(Ordering::SeqCst) != expected {
             return FutexWait::Again;
         }
         r.push(FWaiter { addr, flag: flag.clone() });
-        FUTEX_REG_LEN.store(r.len(), Ordering::SeqCst);
     }
     {
         let mut g = sim.lock();
@@ -1842,9 +1896,8 @@ pub(crate) unsafe fn futex_wait_emulated(addr: usize, expected: u32, timeout_ns:
         }
     }
     {
-        let mut r = FUTEX_REG.lock().unwrap_or_else(|e| e.into_inner());
+        let mut r = FUTEX_REG.lock();
         r.retain(|w| !Arc::ptr_eq(&w.flag, &flag));
-        FUTEX_REG_LEN.store(r.len(), Ordering::SeqCst);
     }
     if flag.load(Ordering::SeqCst) == FUTEX_WOKEN {
         FutexWait::Woken
@@ -1862,11 +1915,11 @@ pub(crate) unsafe fn futex_wait_emulated(addr: usize, expected: u32, timeout_ns:
 /// FUTEX_WAKE from any thread of the process: releases up to `n` workers parked by
 /// `futex_wait_emulated` on `addr`; returns how many (the real system call is made as well).
 pub(crate) fn futex_wake_emulated(addr: usize, n: usize) -> usize {
-    if FUTEX_REG_LEN.load(Ordering::SeqCst) == 0 {
+    let _i = InternalSection::new();
+    let mut r = FUTEX_REG.lock();
+    if r.is_empty() {
         return 0;
     }
-    let _i = InternalSection::new();
-    let mut r = FUTEX_REG.lock().unwrap_or_else(|e| e.into_inner());
     let mut k = 0;
     r.retain(|w| {
         if k < n && w.addr == addr {
@@ -1877,7 +1930,6 @@ pub(crate) fn futex_wake_emulated(addr: usize, n: usize) -> usize {
             true
         }
     });
-    FUTEX_REG_LEN.store(r.len(), Ordering::SeqCst);
     FUTEX_WAKES.fetch_add(k as u64, Ordering::Relaxed);
     k
 }
